@@ -273,6 +273,15 @@ theorem cst_lexM_modulo : (c : Cst) → c.lexM.filter keep = (c.lex.map normLex)
       | nil => rfl
       | cons a r ih => simp [attrLex, normLex, ih]
     simp only [Cst.lexM, Cst.lex, List.map_append, List.filter_append, cst_lexM_modulo e, map_normLex_lexGC, hat]
+  | .selOr e c1 _ _ attrs c2 _ _ d => by
+    have hat : ∀ (as : List Text), (attrLex as).map normLex = attrLex as := by
+      intro as
+      induction as with
+      | nil => rfl
+      | cons a r ih => simp [attrLex, normLex, ih]
+    simp only [Cst.lexM, Cst.lex, List.map_append, List.map_cons, List.filter_append, List.filter_cons, cst_lexM_modulo e,
+      cst_lexM_modulo d, map_normLex_lexGC, hat]
+    simp [normLex, keep, isBindDelim]
 theorem items_lexM_modulo : (its : Items) → its.lexM.filter keep = (its.lex.map normLex).filter keep
   | .nil => rfl
   | .cmt _ t rest => by
